@@ -104,6 +104,13 @@ func canon(s *Sim, kv reflect.Value) (bool, float64, string) {
 		if kv.Kind() == reflect.Ptr && kv.IsNil() {
 			return false, 0, "p:" + kv.Type().String() + ":nil"
 		}
+		if s != nil && kv.CanInterface() && s.noted != nil {
+			// insertion order recorded by the instrumented map store: independent of
+			// any id the program under test computes
+			if n, ok := s.noted[kv.Interface()]; ok {
+				return false, 0, fmt.Sprintf("p:%s:ins%010d", kv.Type().String(), n)
+			}
+		}
 		if kv.CanInterface() {
 			if id, ok := kv.Interface().(interface{ ID() uint64 }); ok {
 				return false, 0, fmt.Sprintf("p:%s:%020d", kv.Type().String(), id.ID())
@@ -127,5 +134,26 @@ func canon(s *Sim, kv reflect.Value) (bool, float64, string) {
 		return false, 0, "p:" + kv.Type().String()
 	default:
 		return false, 0, fmt.Sprintf("%s:%v", kv.Type().String(), kv.Interface())
+	}
+}
+
+// NoteKey is inserted by the instrumenter before a store into a map whose key type
+// is a pointer or an interface: the key gets the next insertion sequence number of
+// the run, which orders such keys in MapKeys deterministically.
+func NoteKey(k interface{}) {
+	s := cur
+	if s == nil || s.aborting || k == nil {
+		return
+	}
+	switch reflect.ValueOf(k).Kind() {
+	case reflect.Ptr, reflect.UnsafePointer, reflect.Chan, reflect.Func:
+	default:
+		return
+	}
+	if s.noted == nil {
+		s.noted = map[interface{}]int{}
+	}
+	if _, ok := s.noted[k]; !ok {
+		s.noted[k] = len(s.noted) + 1
 	}
 }
